@@ -1,47 +1,322 @@
-use scylla_cql_core::deserialize::value::DeserializeValue;
-use scylla_cql_core::deserialize::FrameSlice;
+//! C01 — CQL value encoding conforms to the protocol and round-trips (Kani part).
+use crate::wire::*;
 use scylla_cql_core::frame::response::result::{ColumnType, NativeType};
-use scylla_cql_core::serialize::value::SerializeValue;
-use scylla_cql_core::serialize::writers::CellWriter;
+use scylla_cql_core::value::{Counter, CqlDate, CqlTime, CqlTimestamp, CqlTimeuuid};
+use std::net::{IpAddr, Ipv4Addr, Ipv6Addr};
+use uuid::Uuid;
 
-// VK: prop=C01 tier=quick cap=120
-// VK-funcs: <i32 as SerializeValue>::serialize, CellWriter::set_value, <i32 as DeserializeValue>::{type_check,deserialize}
-// VK-bounds: all 2^32 values; unwind 10
-#[kani::proof]
-#[kani::unwind(10)]
-pub fn c01_i32_int() {
-    let v: i32 = kani::any();
+/// proof harness with the two error-path stubs every core harness uses (see stubs.rs):
+/// ColumnType::clone -> leaf (only used to build error values), Arc::drop_slow -> leak (error values are never freed)
+#[macro_export]
+macro_rules! vk_h {
+    ($name:ident, $unwind:expr, $body:block) => {
+        #[kani::proof]
+        #[kani::unwind($unwind)]
+        #[kani::stub(<scylla_cql_core::frame::response::result::ColumnType as std::clone::Clone>::clone, crate::stubs::column_type_clone)]
+        #[kani::stub(std::sync::Arc::drop_slow, crate::stubs::arc_drop_slow)]
+        pub fn $name() $body
+    };
+}
+
+/// native carrier: value -> bytes == spec, bytes -> value == original
+macro_rules! vk_native {
+    ($name:ident, $t:ty, $nt:ident, $mk:expr, $spec:expr, $eq:expr) => {
+        #[kani::proof]
+        #[kani::unwind(24)]
+        #[kani::stub(<scylla_cql_core::frame::response::result::ColumnType as std::clone::Clone>::clone, crate::stubs::column_type_clone)]
+        #[kani::stub(std::sync::Arc::drop_slow, crate::stubs::arc_drop_slow)]
+        pub fn $name() {
+            let v: $t = $mk;
+            let typ = ColumnType::Native(NativeType::$nt);
+            let buf = ser(&v, &typ);
+            let payload: Vec<u8> = ($spec)(&v);
+            assert!(same(&buf, &spec_cell(&payload)), "emitted bytes differ from the CQL v4 encoding");
+            let b = body(&buf);
+            let back: $t = de(&typ, b.as_ref());
+            assert!(($eq)(&back, &v), "decoded value differs from the bound value");
+            kani::cover!(true, "reach_end");
+        }
+    };
+}
+
+// VK: prop=C01 tier=quick cap=300
+// VK-funcs: <i8 as SerializeValue>::serialize, CellWriter::set_value, <i8 as DeserializeValue>::{type_check,deserialize}
+// VK-bounds: all 2^8 values; column type tinyint; unwind 20
+// VK-out: third-party carriers (chrono/time/num-bigint/bigdecimal/secrecy), HashMap/HashSet carriers, strings > 3 bytes, collections > 2 elements, nesting > 2
+vk_native!(c01_i8_tinyint, i8, TinyInt, kani::any(), |v: &i8| vec![*v as u8], |a: &i8, b: &i8| a == b);
+// VK: prop=C01 tier=quick cap=300
+// VK-funcs: i16 SerializeValue/DeserializeValue
+// VK-bounds: all values; smallint
+vk_native!(c01_i16_smallint, i16, SmallInt, kani::any(), |v: &i16| vec![(*v >> 8) as u8, *v as u8], |a: &i16, b: &i16| a == b);
+// VK: prop=C01 tier=quick cap=300
+// VK-funcs: i32 SerializeValue/DeserializeValue
+// VK-bounds: all 2^32 values; int
+vk_native!(c01_i32_int, i32, Int, kani::any(), |v: &i32| spec_i32(*v).to_vec(), |a: &i32, b: &i32| a == b);
+fn spec_i64(v: i64) -> Vec<u8> {
+    let mut out = Vec::new();
+    let mut k = 0;
+    while k < 8 {
+        out.push((v >> (56 - 8 * k)) as u8);
+        k += 1;
+    }
+    out
+}
+// VK: prop=C01 tier=quick cap=300
+// VK-funcs: i64 SerializeValue/DeserializeValue
+// VK-bounds: all 2^64 values; bigint
+vk_native!(c01_i64_bigint, i64, BigInt, kani::any(), |v: &i64| spec_i64(*v), |a: &i64, b: &i64| a == b);
+// VK: prop=C01 tier=quick cap=300
+// VK-funcs: f32 SerializeValue/DeserializeValue
+// VK-bounds: all 2^32 bit patterns incl. NaN payloads (compared by bits); float
+vk_native!(c01_f32_float, f32, Float, f32::from_bits(kani::any()), |v: &f32| spec_i32(v.to_bits() as i32).to_vec(),
+    |a: &f32, b: &f32| a.to_bits() == b.to_bits());
+// VK: prop=C01 tier=quick cap=300
+// VK-funcs: f64 SerializeValue/DeserializeValue
+// VK-bounds: all 2^64 bit patterns incl. NaN payloads; double
+vk_native!(c01_f64_double, f64, Double, f64::from_bits(kani::any()), |v: &f64| spec_i64(v.to_bits() as i64),
+    |a: &f64, b: &f64| a.to_bits() == b.to_bits());
+// VK: prop=C01 tier=quick cap=300
+// VK-funcs: bool SerializeValue/DeserializeValue
+// VK-bounds: both values; boolean
+vk_native!(c01_bool_boolean, bool, Boolean, kani::any(), |v: &bool| vec![if *v { 1u8 } else { 0u8 }], |a: &bool, b: &bool| a == b);
+// VK: prop=C01 tier=quick cap=300
+// VK-funcs: Counter SerializeValue/DeserializeValue
+// VK-bounds: all i64; counter
+vk_native!(c01_counter, Counter, Counter, Counter(kani::any()), |v: &Counter| spec_i64(v.0), |a: &Counter, b: &Counter| a.0 == b.0);
+// VK: prop=C01 tier=quick cap=300
+// VK-funcs: CqlDate SerializeValue/DeserializeValue
+// VK-bounds: all u32 (days since -5877641-06-23); date
+vk_native!(c01_cqldate, CqlDate, Date, CqlDate(kani::any()), |v: &CqlDate| spec_i32(v.0 as i32).to_vec(), |a: &CqlDate, b: &CqlDate| a.0 == b.0);
+// VK: prop=C01 tier=quick cap=300
+// VK-funcs: CqlTimestamp SerializeValue/DeserializeValue
+// VK-bounds: all i64; timestamp
+vk_native!(c01_cqltimestamp, CqlTimestamp, Timestamp, CqlTimestamp(kani::any()), |v: &CqlTimestamp| spec_i64(v.0),
+    |a: &CqlTimestamp, b: &CqlTimestamp| a.0 == b.0);
+fn any_time() -> CqlTime {
+    let n: i64 = kani::any();
+    // a CQL time is nanoseconds since midnight
+    kani::assume(n >= 0 && n < 86_400_000_000_000);
+    CqlTime(n)
+}
+// VK: prop=C01 tier=quick cap=300
+// VK-funcs: CqlTime SerializeValue/DeserializeValue
+// VK-bounds: all nanoseconds-since-midnight values 0..86_400_000_000_000; time
+vk_native!(c01_cqltime, CqlTime, Time, any_time(), |v: &CqlTime| spec_i64(v.0), |a: &CqlTime, b: &CqlTime| a.0 == b.0);
+// VK: prop=C01 tier=quick cap=300
+// VK-funcs: Uuid SerializeValue/DeserializeValue
+// VK-bounds: all 16-byte values; uuid
+vk_native!(c01_uuid, Uuid, Uuid, Uuid::from_bytes(kani::any()), |v: &Uuid| v.as_bytes().to_vec(), |a: &Uuid, b: &Uuid| a.as_bytes() == b.as_bytes());
+// VK: prop=C01 tier=quick cap=300
+// VK-funcs: CqlTimeuuid SerializeValue/DeserializeValue
+// VK-bounds: all 16-byte values; timeuuid
+vk_native!(c01_timeuuid, CqlTimeuuid, Timeuuid, CqlTimeuuid::from_bytes(kani::any()), |v: &CqlTimeuuid| v.as_bytes().to_vec(),
+    |a: &CqlTimeuuid, b: &CqlTimeuuid| a.as_bytes() == b.as_bytes());
+fn ip_bytes(v: &IpAddr) -> Vec<u8> {
+    match v {
+        IpAddr::V4(x) => x.octets().to_vec(),
+        IpAddr::V6(x) => x.octets().to_vec(),
+    }
+}
+fn ip_same(a: &IpAddr, b: &IpAddr) -> bool {
+    match (a, b) {
+        (IpAddr::V4(x), IpAddr::V4(y)) => x.octets() == y.octets(),
+        (IpAddr::V6(x), IpAddr::V6(y)) => x.octets() == y.octets(),
+        _ => false,
+    }
+}
+// VK: prop=C01 tier=quick cap=300
+// VK-funcs: IpAddr SerializeValue/DeserializeValue (IPv4)
+// VK-bounds: all IPv4 addresses; inet
+vk_native!(c01_inet_v4, IpAddr, Inet, IpAddr::V4(Ipv4Addr::from(kani::any::<[u8; 4]>())), ip_bytes, ip_same);
+// VK: prop=C01 tier=quick cap=300
+// VK-funcs: IpAddr SerializeValue/DeserializeValue (IPv6)
+// VK-bounds: all IPv6 addresses incl. IPv4-mapped ones (must come back as V6); inet
+vk_native!(c01_inet_v6, IpAddr, Inet, IpAddr::V6(Ipv6Addr::from(kani::any::<[u8; 16]>())), ip_bytes, ip_same);
+
+// ------------------------------------------------------------------------------------------------
+// strings, blobs, varint, decimal: concrete content length L, symbolic bytes
+use bytes::Bytes;
+use scylla_cql_core::value::{CqlDecimal, CqlValue, CqlVarint, MaybeEmpty, MaybeUnset, Unset};
+
+fn text_rt<const L: usize>(ascii: bool) {
+    let (s, arr) = any_string::<L>(ascii);
+    let typ = ColumnType::Native(if ascii { NativeType::Ascii } else { NativeType::Text });
+    let buf = ser(&s, &typ);
+    assert!(same(&buf, &spec_cell(&arr)), "emitted bytes differ from the CQL v4 encoding");
+    // &str carrier writes the same bytes
+    let buf2 = ser(s.as_str(), &typ);
+    assert!(same(&buf2, &buf));
+    let b = body(&buf);
+    let back: String = de(&typ, b.as_ref());
+    assert!(same(back.as_bytes(), &arr), "decoded string differs");
+    let back2: &str = de(&typ, b.as_ref());
+    assert!(same(back2.as_bytes(), &arr));
+    kani::cover!(true, "reach_end");
+}
+macro_rules! vk_text {
+    ($name:ident, $l:expr, $ascii:expr) => {
+        #[kani::proof]
+        #[kani::unwind(12)]
+        #[kani::stub(<scylla_cql_core::frame::response::result::ColumnType as std::clone::Clone>::clone, crate::stubs::column_type_clone)]
+        #[kani::stub(std::sync::Arc::drop_slow, crate::stubs::arc_drop_slow)]
+        pub fn $name() {
+            text_rt::<$l>($ascii);
+        }
+    };
+}
+// VK: prop=C01 tier=quick cap=600
+// VK-funcs: String/&str SerializeValue, String/&str DeserializeValue (text)
+// VK-bounds: the empty string (zero-length cell)
+vk_text!(c01_text_len0, 0, false);
+// VK: prop=C01 tier=quick cap=600
+// VK-funcs: String/&str SerializeValue/DeserializeValue (text)
+// VK-bounds: every valid-UTF-8 string of 2 bytes (incl. one 2-byte scalar)
+vk_text!(c01_text_len2, 2, false);
+// VK: prop=C01 tier=thorough cap=1200
+// VK-funcs: String/&str SerializeValue/DeserializeValue (text)
+// VK-bounds: every valid-UTF-8 string of 3 bytes
+vk_text!(c01_text_len3, 3, false);
+// VK: prop=C01 tier=quick cap=600
+// VK-funcs: String/&str SerializeValue/DeserializeValue (ascii)
+// VK-bounds: every ASCII string of 2 bytes
+vk_text!(c01_ascii_len2, 2, true);
+
+fn blob_rt<const L: usize>() {
+    let arr: [u8; L] = kani::any();
+    let typ = ColumnType::Native(NativeType::Blob);
+    let v: Vec<u8> = arr.to_vec();
+    let buf = ser(&v, &typ);
+    assert!(same(&buf, &spec_cell(&arr)), "emitted bytes differ from the CQL v4 encoding");
+    assert!(same(&ser(&&arr[..], &typ), &buf), "&[u8] carrier differs");
+    assert!(same(&ser(&arr, &typ), &buf), "[u8; N] carrier differs");
+    assert!(same(&ser(&Bytes::copy_from_slice(&arr), &typ), &buf), "Bytes carrier differs");
+    let b = body(&buf);
+    let back: Vec<u8> = de(&typ, b.as_ref());
+    assert!(same(&back, &arr), "decoded blob differs");
+    let back2: &[u8] = de(&typ, b.as_ref());
+    assert!(same(back2, &arr));
+    let back3: Bytes = de(&typ, b.as_ref());
+    assert!(same(&back3, &arr));
+    kani::cover!(true, "reach_end");
+}
+// VK: prop=C01 tier=quick cap=600
+// VK-funcs: Vec<u8>, &[u8], [u8;N], Bytes SerializeValue; Vec<u8>, &[u8], Bytes DeserializeValue (blob)
+// VK-bounds: the empty blob (zero-length cell)
+vk_h!(c01_blob_len0, 12, {
+    blob_rt::<0>();
+});
+// VK: prop=C01 tier=quick cap=600
+// VK-funcs: as c01_blob_len0
+// VK-bounds: every blob of 3 bytes
+vk_h!(c01_blob_len3, 12, {
+    blob_rt::<3>();
+});
+
+fn varint_rt<const L: usize>() {
+    let arr: [u8; L] = kani::any();
+    let typ = ColumnType::Native(NativeType::Varint);
+    let v = CqlVarint::from_signed_bytes_be_slice(&arr);
+    let buf = ser(&v, &typ);
+    // bytes supplied by the user are passed as they are (non-normalised forms such as 00 7f included)
+    assert!(same(&buf, &spec_cell(&arr)), "emitted bytes differ from the CQL v4 encoding");
+    let b = body(&buf);
+    let back: CqlVarint = de(&typ, b.as_ref());
+    assert!(same(back.as_signed_bytes_be_slice(), &arr), "decoded varint bytes differ");
+    kani::cover!(true, "reach_end");
+}
+// VK: prop=C01 tier=quick cap=600
+// VK-funcs: CqlVarint SerializeValue/DeserializeValue (varint)
+// VK-bounds: every 1-byte varint
+vk_h!(c01_varint_len1, 12, {
+    varint_rt::<1>();
+});
+// VK: prop=C01 tier=quick cap=600
+// VK-funcs: CqlVarint SerializeValue/DeserializeValue (varint)
+// VK-bounds: every 3-byte varint incl. non-normalised encodings (00 00 7f, ff ff 80)
+vk_h!(c01_varint_len3, 12, {
+    varint_rt::<3>();
+});
+
+fn decimal_rt<const L: usize>() {
+    let arr: [u8; L] = kani::any();
+    let scale: i32 = kani::any();
+    let typ = ColumnType::Native(NativeType::Decimal);
+    let v = CqlDecimal::from_signed_be_bytes_slice_and_exponent(&arr, scale);
+    let buf = ser(&v, &typ);
+    let payload = cat(&[&spec_i32(scale), &arr]);
+    assert!(same(&buf, &spec_cell(&payload)), "emitted bytes differ from the CQL v4 encoding (scale int32, then unscaled varint)");
+    let b = body(&buf);
+    let back: CqlDecimal = de(&typ, b.as_ref());
+    let (bb, bs) = back.as_signed_be_bytes_slice_and_exponent();
+    assert!(bs == scale && same(bb, &arr), "decoded decimal differs");
+    kani::cover!(true, "reach_end");
+}
+// VK: prop=C01 tier=quick cap=600
+// VK-funcs: CqlDecimal SerializeValue/DeserializeValue (decimal)
+// VK-bounds: any i32 scale, every 2-byte unscaled value
+vk_h!(c01_decimal_len2, 12, {
+    decimal_rt::<2>();
+});
+
+// VK: prop=C01 tier=quick cap=600
+// VK-funcs: Option<i32> SerializeValue/DeserializeValue, CellWriter::set_null
+// VK-bounds: None / Some(any i32) on an int column
+vk_h!(c01_option_int, 12, {
+    // the two shapes run as separate straight-line flows (no merge of differently sized buffers)
+    fn flow(o: Option<i32>) {
+        let typ = ColumnType::Native(NativeType::Int);
+        let buf = ser(&o, &typ);
+        match o {
+            Some(v) => assert!(same(&buf, &spec_cell(&spec_i32(v)))),
+            None => assert!(same(&buf, &spec_null()), "null must be the length -1"),
+        }
+        let b = body(&buf);
+        let back: Option<i32> = de(&typ, b.as_ref());
+        assert!(back == o, "Option round trip differs");
+    }
+    flow(Some(kani::any()));
+    flow(None);
+    kani::cover!(true, "reach_end");
+});
+
+// VK: prop=C01 tier=quick cap=600
+// VK-funcs: MaybeUnset<i32>, Unset SerializeValue, CellWriter::set_unset
+// VK-bounds: Unset / Set(any i32) on an int column
+vk_h!(c01_maybe_unset_int, 12, {
     let typ = ColumnType::Native(NativeType::Int);
-    let mut buf: Vec<u8> = Vec::new();
-    let r = SerializeValue::serialize(&v, &typ, CellWriter::new(&mut buf));
-    assert!(r.is_ok());
-    let be = v.to_be_bytes();
-    assert!(buf.len() == 8);
-    assert!(buf[0] == 0 && buf[1] == 0 && buf[2] == 0 && buf[3] == 4);
-    assert!(buf[4] == be[0] && buf[5] == be[1] && buf[6] == be[2] && buf[7] == be[3]);
-    let b = bytes::Bytes::copy_from_slice(&buf[4..]);
-    let fs = FrameSlice::new(&b);
-    assert!(<i32 as DeserializeValue>::type_check(&typ).is_ok());
-    let back = <i32 as DeserializeValue>::deserialize(&typ, Some(fs));
-    match back { Ok(x) => assert!(x == v), Err(_) => assert!(false) }
+    let x: i32 = kani::any();
+    assert!(same(&ser(&MaybeUnset::Set(x), &typ), &spec_cell(&spec_i32(x))));
+    assert!(same(&ser(&MaybeUnset::<i32>::Unset, &typ), &spec_unset()), "not-set must be the length -2");
+    assert!(same(&ser(&Unset, &typ), &spec_unset()));
     kani::cover!(true, "reach_end");
-}
+});
 
-// VK: prop=C01 tier=quick cap=120
-// VK-funcs: <i64 as SerializeValue>::serialize, <i64 as DeserializeValue>::deserialize
-// VK-bounds: all 2^64 values; unwind 10
-#[kani::proof]
-#[kani::unwind(10)]
-pub fn c01_i64_bigint() {
-    let v: i64 = kani::any();
-    let typ = ColumnType::Native(NativeType::BigInt);
-    let mut buf: Vec<u8> = Vec::new();
-    let r = SerializeValue::serialize(&v, &typ, CellWriter::new(&mut buf));
-    assert!(r.is_ok());
-    assert!(buf.len() == 12);
-    let b = bytes::Bytes::copy_from_slice(&buf[4..]);
-    let fs = FrameSlice::new(&b);
-    let back = <i64 as DeserializeValue>::deserialize(&typ, Some(fs));
-    match back { Ok(x) => assert!(x == v), Err(_) => assert!(false) }
+// VK: prop=C01 tier=quick cap=600
+// VK-funcs: MaybeEmpty<i32> SerializeValue/DeserializeValue, CqlValue::Empty SerializeValue, CqlValue DeserializeValue (empty cell)
+// VK-bounds: Empty / Value(any i32) on an int column; CqlValue::Empty
+vk_h!(c01_maybe_empty_int, 12, {
+    let typ = ColumnType::Native(NativeType::Int);
+    fn flow(e: MaybeEmpty<i32>) {
+        let typ = ColumnType::Native(NativeType::Int);
+        let bufe = ser(&e, &typ);
+        match e {
+            MaybeEmpty::Value(v) => assert!(same(&bufe, &spec_cell(&spec_i32(v)))),
+            MaybeEmpty::Empty => assert!(same(&bufe, &spec_cell(&[])), "empty must be a zero-length cell"),
+        }
+        let be = body(&bufe);
+        let backe: MaybeEmpty<i32> = de(&typ, be.as_ref());
+        assert!(backe == e, "MaybeEmpty round trip differs");
+    }
+    flow(MaybeEmpty::Value(kani::any()));
+    flow(MaybeEmpty::Empty);
+    // dynamic value: CqlValue::Empty on an emptiable type
+    let cv = CqlValue::Empty;
+    let bufd = ser(&cv, &typ);
+    assert!(same(&bufd, &spec_cell(&[])));
+    let bd = body(&bufd);
+    let backd: CqlValue = de(&typ, bd.as_ref());
+    assert!(matches!(backd, CqlValue::Empty));
+    std::mem::forget(backd);
+    std::mem::forget(cv);
     kani::cover!(true, "reach_end");
-}
+});
